@@ -210,3 +210,53 @@ func (v *VerifFittedBinary) FromFloat(x []float32, idY uint64) float32 {
 func (v *VerifFittedBinary) FromPoint(idX, idY uint64) float32 {
 	return v.bq.DistanceFromPoint(v.point(idX))(v.point(idY))
 }
+
+// ---------------------------
+
+// VerifProductStore is VerifProductFit with the trigger threshold given: with
+// more than len(vectors) the call to Fit leaves the quantizer untrained and the
+// distance closures work on the raw vectors.
+func VerifProductStore(metric string, numSubVectors, numCentroids, vectorLen, triggerThreshold int, vectors [][]float32, distFn distance.FloatDistFunc) (*VerifFittedProduct, error) {
+	params := models.ProductQuantizerParameters{NumCentroids: numCentroids, NumSubVectors: numSubVectors, TriggerThreshold: triggerThreshold}
+	pq, err := newProductQuantizer(diskstore.NewMemBucket(false), metric, params, vectorLen)
+	if err != nil {
+		return nil, err
+	}
+	if distFn != nil {
+		pq.distFn = distFn
+	}
+	for i, v := range vectors {
+		if _, err := pq.Set(uint64(i+1), v); err != nil {
+			return nil, err
+		}
+	}
+	if err := pq.Fit(); err != nil {
+		return nil, err
+	}
+	return &VerifFittedProduct{pq: pq, Metric: pq.distFnName, NumSubVectors: numSubVectors, NumCentroids: numCentroids, SubVectorLen: pq.subVectorLen}, nil
+}
+
+// VerifBinaryStore is VerifBinaryFit with an optional preset threshold (the
+// constructor spreads it over the vector length, Fit then does nothing) and the
+// trigger threshold given (more than len(vectors): Fit leaves the quantizer
+// untrained, the closures use the float distance on the raw vectors).
+func VerifBinaryStore(bitMetric, floatMetric string, threshold *float32, triggerThreshold, vectorLen int, vectors [][]float32) (*VerifFittedBinary, error) {
+	floatFn, err := distance.GetFloatDistanceFn(floatMetric)
+	if err != nil {
+		return nil, err
+	}
+	params := models.BinaryQuantizerParamaters{Threshold: threshold, TriggerThreshold: triggerThreshold, DistanceMetric: bitMetric}
+	bq, err := newBinaryQuantizer(diskstore.NewMemBucket(false), floatFn, params, vectorLen)
+	if err != nil {
+		return nil, err
+	}
+	for i, v := range vectors {
+		if _, err := bq.Set(uint64(i+1), v); err != nil {
+			return nil, err
+		}
+	}
+	if err := bq.Fit(); err != nil {
+		return nil, err
+	}
+	return &VerifFittedBinary{bq: bq}, nil
+}
